@@ -1,0 +1,46 @@
+//go:build verif
+
+package thunderpb
+
+// Contracts for the govc verification engine (see /verif/DESIGN.md). Comment-only; guarded by the build tag `verif`.
+// The generated oneof getters of Field: each returns the payload of its own wrapper and the zero value otherwise.
+
+// a oneof slot never holds a typed nil wrapper (the generated unmarshaller and thunder's own constructors store &Field_X{...})
+//@ nonnil elem *thunderpb.Field_Bool, elem *thunderpb.Field_Int, elem *thunderpb.Field_Uint, elem *thunderpb.Field_String_, elem *thunderpb.Field_Bytes, elem *thunderpb.Field_Float64, elem *thunderpb.Field_Time
+
+//@ func Field.GetValue
+//@   assigns nothing
+//@   ensures m != nil ==> result == m.Value
+//@   ensures m == nil ==> result == nil
+
+//@ func Field.GetBool
+//@   assigns nothing
+//@   ensures m != nil && (m.Value is *Field_Bool) ==> result == m.Value.(*Field_Bool).Bool
+
+//@ func Field.GetInt
+//@   assigns nothing
+//@   ensures m != nil && (m.Value is *Field_Int) ==> result == m.Value.(*Field_Int).Int
+
+//@ func Field.GetUint
+//@   assigns nothing
+//@   ensures m != nil && (m.Value is *Field_Uint) ==> result == m.Value.(*Field_Uint).Uint
+
+//@ func Field.GetString_
+//@   assigns nothing
+//@   ensures m != nil && (m.Value is *Field_String_) ==> result == m.Value.(*Field_String_).String_
+
+//@ func Field.GetBytes
+//@   assigns nothing
+//@   ensures m != nil && (m.Value is *Field_Bytes) ==> result == m.Value.(*Field_Bytes).Bytes
+
+//@ func Field.GetFloat64
+//@   assigns nothing
+//@   ensures m != nil && (m.Value is *Field_Float64) ==> result == m.Value.(*Field_Float64).Float64
+
+//@ func Field.GetTime
+//@   assigns nothing
+//@   ensures m != nil && (m.Value is *Field_Time) ==> result == m.Value.(*Field_Time).Time
+
+// the generated String method looks the name up in a table (proto.EnumName): no heap effect
+//@ trusted func FieldKind.String
+//@   assigns nothing
